@@ -37,6 +37,10 @@ func runStatic(prog *Prog, sc StaticCheck) *StaticResult {
 		return runSpawn(prog, sc)
 	case "once-init":
 		return runOnceInit(prog, sc)
+	case "no-reach":
+		return runNoReach(prog, sc)
+	case "arg-origin":
+		return runArgOrigin(prog, sc)
 	case "critical-section":
 		return runCriticalSection(prog, sc)
 	case "atomic-write":
@@ -431,5 +435,173 @@ func runGate(prog *Prog, sc StaticCheck) *StaticResult {
 		res.Obligations++
 		res.Failures = append(res.Failures, sc.Args["func"]+": no successful return found (vacuous gate)")
 	}
+	return res
+}
+
+// runArgOrigin: every call of <callee> inside <func> (directly or through a package-level function variable that
+// is only assigned in the initialiser) passes, at argument index <arg>, the immediate result of a call of <origin>.
+func runArgOrigin(prog *Prog, sc StaticCheck) *StaticResult {
+	res := &StaticResult{Name: sc.Name, Kind: sc.Kind}
+	fn := prog.FindFunc(modPath+"/"+sc.Pkg, sc.Args["func"])
+	if fn == nil {
+		res.Obligations = 1
+		res.Failures = append(res.Failures, "binding: function "+sc.Args["func"]+" not found")
+		return res
+	}
+	var argIdx int
+	fmt.Sscanf(sc.Args["arg"], "%d", &argIdx)
+	sites := 0
+	for _, f := range append([]*ssa.Function{fn}, fn.AnonFuncs...) {
+		for _, b := range f.Blocks {
+			for _, in := range b.Instrs {
+				ci, ok := in.(ssa.CallInstruction)
+				if !ok {
+					continue
+				}
+				callee := ci.Common().StaticCallee()
+				if callee == nil {
+					callee = prog.globalFuncInit(ci.Common().Value)
+				}
+				if callee == nil || contractName(callee) != sc.Args["callee"] {
+					continue
+				}
+				sites++
+				res.Obligations++
+				args := ci.Common().Args
+				okOrigin := false
+				if argIdx < len(args) {
+					if oc, ok := args[argIdx].(*ssa.Call); ok && oc.Call.StaticCallee() != nil && contractName(oc.Call.StaticCallee()) == sc.Args["origin"] {
+						okOrigin = true
+					}
+				}
+				if okOrigin {
+					res.Discharged++
+					res.Samples = append(res.Samples, map[string]interface{}{"obligation": fmt.Sprintf("%s#arg %d of %s is a fresh %s() at %s", sc.Args["func"], argIdx, sc.Args["callee"], sc.Args["origin"], posOf(prog, in.Pos())), "backend": "def-use"})
+				} else {
+					res.Failures = append(res.Failures, fmt.Sprintf("%s calls %s at %s with argument %d not produced by %s()", sc.Args["func"], sc.Args["callee"], posOf(prog, in.Pos()), argIdx, sc.Args["origin"]))
+				}
+			}
+		}
+	}
+	if sites == 0 {
+		res.Obligations++
+		res.Failures = append(res.Failures, fmt.Sprintf("%s does not call %s (stale)", sc.Args["func"], sc.Args["callee"]))
+	}
+	return res
+}
+
+// runNoReach: no function in <targets> is reachable from <func> over the static call graph (direct calls,
+// closures made or called along the way, package-level function variables fixed at initialisation, and every
+// in-module implementation of an interface method that is invoked).
+func runNoReach(prog *Prog, sc StaticCheck) *StaticResult {
+	res := &StaticResult{Name: sc.Name, Kind: sc.Kind}
+	fn := prog.FindFunc(modPath+"/"+sc.Pkg, sc.Args["func"])
+	if fn == nil {
+		res.Obligations = 1
+		res.Failures = append(res.Failures, "binding: function "+sc.Args["func"]+" not found")
+		return res
+	}
+	targets := map[string]bool{}
+	found := map[string]bool{}
+	for _, t := range strings.Split(sc.Args["targets"], ",") {
+		if t = strings.TrimSpace(t); t != "" {
+			targets[t] = true
+			if prog.FindFunc(modPath+"/"+sc.Pkg, t) != nil {
+				found[t] = true
+			}
+		}
+	}
+	for t := range targets {
+		if !found[t] {
+			res.Obligations++
+			res.Failures = append(res.Failures, "binding: target function "+t+" not found in "+sc.Pkg)
+		}
+	}
+	seen := map[*ssa.Function]*ssa.Function{fn: nil}
+	work := []*ssa.Function{fn}
+	var hit *ssa.Function
+	unknown := 0
+	for len(work) > 0 && hit == nil {
+		f := work[len(work)-1]
+		work = work[:len(work)-1]
+		add := func(g *ssa.Function) {
+			if g == nil {
+				return
+			}
+			if _, ok := seen[g]; ok {
+				return
+			}
+			seen[g] = f
+			if g.Pkg != nil && g.Pkg.Pkg.Path() == modPath+"/"+sc.Pkg && targets[contractName(g)] {
+				hit = g
+			}
+			// bodies outside the module cannot name the module's functions; what they may call back is what
+			// they are handed (function arguments and interface values, both followed at the call site)
+			root := g
+			for root.Parent() != nil {
+				root = root.Parent()
+			}
+			inMod := root.Pkg != nil && strings.HasPrefix(root.Pkg.Pkg.Path(), modPath)
+			if root.Pkg == nil && g.Synthetic != "" {
+				inMod = true
+			}
+			if g.Blocks != nil && inMod {
+				work = append(work, g)
+			}
+		}
+		for _, b := range f.Blocks {
+			for _, in := range b.Instrs {
+				if mc, ok := in.(*ssa.MakeClosure); ok {
+					add(mc.Fn.(*ssa.Function))
+				}
+				ci, ok := in.(ssa.CallInstruction)
+				if !ok {
+					continue
+				}
+				c := ci.Common()
+				if c.IsInvoke() {
+					if iface, ok := c.Value.Type().Underlying().(*types.Interface); ok {
+						for _, impl := range prog.implementations(iface, c.Method) {
+							add(impl)
+						}
+					}
+					continue
+				}
+				if g := c.StaticCallee(); g != nil {
+					add(g)
+				} else if g := prog.globalFuncInit(c.Value); g != nil {
+					add(g)
+				} else if g := closureOrigin(c.Value); g != nil {
+					add(g)
+				} else if _, isBuiltin := c.Value.(*ssa.Builtin); !isBuiltin {
+					unknown++
+				}
+				// functions passed as arguments may be called by the callee
+				for _, a := range c.Args {
+					switch av := a.(type) {
+					case *ssa.Function:
+						add(av)
+					case *ssa.MakeClosure:
+						add(av.Fn.(*ssa.Function))
+					}
+				}
+			}
+		}
+	}
+	res.Obligations++
+	if hit != nil {
+		var path []string
+		for g := hit; g != nil; g = seen[g] {
+			path = append([]string{g.Name()}, path...)
+		}
+		res.Failures = append(res.Failures, fmt.Sprintf("%s reaches %s: %s", sc.Args["func"], contractName(hit), strings.Join(path, " -> ")))
+	} else {
+		res.Discharged++
+		res.Samples = append(res.Samples, map[string]interface{}{"obligation": fmt.Sprintf("%s#no call path to {%s}", sc.Args["func"], sc.Args["targets"]), "backend": "call-graph reachability", "functions_visited": len(seen)})
+	}
+	if unknown > 0 {
+		res.Trusted = append(res.Trusted, fmt.Sprintf("no-reach %s: %d calls through function values of unknown origin (parameters, struct fields) are assumed not to reach the targets", sc.Args["func"], unknown))
+	}
+	res.Detail = map[string]interface{}{"visited": len(seen), "unknown_calls": unknown}
 	return res
 }
